@@ -10,7 +10,7 @@ import itertools
 
 import numpy as np
 
-from vf.common import Plan, held, violated, inconclusive, rng_for, pick
+from vf.common import vary_seq, Plan, held, violated, inconclusive, rng_for, pick
 
 SPEC = {
     "deciding_monitors": ["fn:resize", "fn:circshift", "fn:flip", "fn:downsample", "fn:upsample", "fn:array_to_blocks", "fn:blocks_to_array", "in:layout:F", "in:layout:strided", "in:complex64", "in:float32", "in:int64"],
@@ -237,15 +237,19 @@ def run_one(case):
     _DT[0] = case.get("dt", "default")
     _NC[0] = case.get("noncontig") or False
     _MG[0] = [0, 0, 0, -34, 27][sum(case["rs"]) % 5]
+    at_ = (sum(case["rs"]) // 5) % 4       # container type of the integer-sequence arguments
+
+    def V(seq):
+        return vary_seq(seq, at_)
     try:
         if f in ("resize", "resize-shift"):
             x = label(shape, cplx)
             ish, osh = case.get("ishift"), case.get("oshift")
             ref = ref_resize(x, case["oshape"], ish, osh)
             if via == "func":
-                got = sp.resize(x, case["oshape"], ishift=ish, oshift=osh)
+                got = sp.resize(x, V(case["oshape"]), ishift=V(ish), oshift=V(osh))
             else:
-                op = L.Resize(case["oshape"], shape, ishift=ish, oshift=osh)
+                op = L.Resize(V(case["oshape"]), V(shape), ishift=V(ish), oshift=V(osh))
                 got = op(x)
             cls = "".join("g" if o > s else "s" if o < s else "e"
                           for o, s in zip(case["oshape"], shape)) + \
@@ -254,9 +258,9 @@ def run_one(case):
             x = label(shape, cplx)
             ref = ref_circshift(x, case["shift"], case["axes"])
             if via == "func":
-                got = sp.circshift(x, case["shift"], case["axes"])
+                got = sp.circshift(x, V(case["shift"]), V(case["axes"]))
             else:
-                op = L.Circshift(shape, case["shift"], axes=case["axes"])
+                op = L.Circshift(V(shape), V(case["shift"]), axes=V(case["axes"]))
                 got = op(x)
             cls = "none" if case["axes"] is None else (
                 "neg" if any(a < 0 for a in case["axes"]) else "pos") + str(len(shape)) + (
@@ -266,9 +270,9 @@ def run_one(case):
             x = label(shape, cplx)
             ref = ref_flip(x, case["axes"])
             if via == "func":
-                got = sp.flip(x, case["axes"])
+                got = sp.flip(x, V(case["axes"]))
             else:
-                op = L.Flip(shape, axes=case["axes"])
+                op = L.Flip(V(shape), axes=V(case["axes"]))
                 got = op(x)
             cls = "none" if case["axes"] is None else (
                 "neg" if any(a < 0 for a in case["axes"]) else "pos") + str(len(shape))
@@ -276,18 +280,18 @@ def run_one(case):
             x = label(shape, cplx)
             ref = ref_downsample(x, case["factors"], case["fshift"])
             if via == "func":
-                got = sp.downsample(x, case["factors"], shift=case["fshift"])
+                got = sp.downsample(x, V(case["factors"]), shift=V(case["fshift"]))
             else:
-                op = L.Downsample(shape, case["factors"], shift=case["fshift"])
+                op = L.Downsample(V(shape), V(case["factors"]), shift=V(case["fshift"]))
                 got = op(x)
             cls = "%d|%s|%s" % (len(shape), case["fshift"] is None, max(case["factors"]))
         elif f == "upsample":
             x = label(shape, cplx)
             ref = ref_upsample(x, case["oshape"], case["factors"], case["fshift"])
             if via == "func":
-                got = sp.upsample(x, case["oshape"], case["factors"], shift=case["fshift"])
+                got = sp.upsample(x, V(case["oshape"]), V(case["factors"]), shift=V(case["fshift"]))
             else:
-                op = L.Upsample(case["oshape"], case["factors"], shift=case["fshift"])
+                op = L.Upsample(V(case["oshape"]), V(case["factors"]), shift=V(case["fshift"]))
                 got = op(x)
             cls = "%d|%s|%s" % (len(shape), case["fshift"] is None, max(case["factors"]))
         else:
@@ -300,18 +304,18 @@ def run_one(case):
                 x = label(batch + shape, cplx)
                 ref = ref_a2b(x, len(batch), b, s)
                 if via == "func":
-                    got = sp.array_to_blocks(x, b, s)
+                    got = sp.array_to_blocks(x, V(b), V(s))
                 else:
-                    op = L.ArrayToBlocks(batch + shape, b, s)
+                    op = L.ArrayToBlocks(V(batch + shape), V(b), V(s))
                     got = op(x)
             else:
                 nb = nblocks(shape, b, s)
                 x = label(batch + nb + b, cplx)
                 ref = ref_b2a(x, len(batch), shape, b, s)
                 if via == "func":
-                    got = sp.blocks_to_array(x, batch + shape, b, s)
+                    got = sp.blocks_to_array(x, V(batch + shape), V(b), V(s))
                 else:
-                    op = L.BlocksToArray(batch + shape, b, s)
+                    op = L.BlocksToArray(V(batch + shape), V(b), V(s))
                     got = op(x)
     except Exception as e:
         inn = e
